@@ -205,7 +205,7 @@ def run(chk):
                 chk.ob('C07-R', '%s reads encoding_chars[%r]' % (fn.qualname, k), ok,
                        '' if ok else 'the key is neither required by check_encoding_chars nor guarded: a valid set without it raises KeyError',
                        '%s:%d' % (fn.module.relpath, n.lineno), key='C07-R|%s|%s' % (fn.qualname, k))
-    chk.floor('encoding_chars[K] subscripts', nsub, 25)
+    chk.floor('encoding_chars[K] subscripts', nsub, 12)
     written = set(forms[5]) | {'FIELD'}
     # which keys does the distinctness test look at?
     dup_all = any(isinstance(n, ast.ListComp) and not n.generators[0].ifs and 'encoding_chars' in norm(n.generators[0].iter)
@@ -260,6 +260,28 @@ def run(chk):
                       'set of some other object)')
     nf = forwarding.check_forwarding(chk, c, 'C07-F', ('encoding_chars',), check_own=True)
     chk.floor('call sites taking encoding_chars', nf, 60)
+
+    chk.rule('C07-U', 'no function accepts a context parameter and then ignores it')
+    forwarding.dead_context_params(chk, c, 'C07-U', ('encoding_chars',))
+
+    # ---- P: the set a message reports is a function of its own MSH-1/MSH-2 only
+    chk.rule('C07-P', 'the getter / setter / header parser of the encoding characters keep no state outside the message: they write no '
+                      'module or class level object and read none that can change')
+    fx = c.fx
+    for fq in ('core.Message._get_encoding_chars', 'core.Message._set_encoding_chars', 'parser._split_msh', 'core.Element.encoding_chars'):
+        fi = ix.func(fq)
+        bad = []
+        for w in fx.writes.get(fq, ()):
+            if fx.resolve_shared(w):
+                bad.append('writes %s' % sorted(fx.resolve_shared(w))[0][2])
+        for n in own_nodes(fi.node):
+            if isinstance(n, ast.Name) and isinstance(n.ctx, ast.Load):
+                for src in fx.sources(n, fi):
+                    if src[0] == 'global' and fx.is_mutable_root(src):
+                        bad.append('reads module variable %s' % src[2])
+        chk.ob('C07-P', '%s depends on the message only' % fq, not bad,
+               '%s: the encoding characters of one message can leak into another' % '; '.join(sorted(set(bad))[:3]), fi.loc,
+               key='C07-P|%s' % fq)
 
     # ---- I
     elem = ix.cls('core.Element')
